@@ -98,7 +98,10 @@ class SafeAtoms(dict):
         dict.__init__(self)
         for key, value in atoms.items():
             if isinstance(value, str):
-                self[key] = value.replace('"', '\\"')
+                # a record is one line: client-controlled atoms (request target,
+                # decoded path, basic-auth user ..) must not be able to break it
+                self[key] = (value.replace('"', '\\"')
+                             .replace('\r', '\\r').replace('\n', '\\n'))
             else:
                 self[key] = value
 
